@@ -309,7 +309,7 @@ func (fx *FX) callContract(st *State, v ssa.Value, callee *ssa.Function, fc *Fun
 		env.bound[l.Name] = fx.evalExpr(env, l.E)
 	}
 	for i, r := range fc.Requires {
-		fx.oblige("pre", fmt.Sprintf("%s.%d", callee.Name(), i+1), g, fx.evalBool(env, r.E), pos, r.Src)
+		fx.oblige("pre", fmt.Sprintf("%s.%d", callee.Name(), i+1), g, fx.goalBool(env, r.E), pos, r.Src)
 	}
 	// modifies: havoc the named objects (the caller must itself be allowed to write them)
 	for _, m := range fc.Modifies {
@@ -356,7 +356,7 @@ func (fx *FX) callContract(st *State, v ssa.Value, callee *ssa.Function, fc *Fun
 		post.bound["result"] = res
 	}
 	for _, e := range fc.Ensures {
-		fx.assume(g, fx.evalBool(post, e.E))
+		fx.assume(g, fx.hypBool(post, e.E))
 	}
 	return res
 }
@@ -566,7 +566,7 @@ func (fx *FX) assumeClosureContract(st *State, fv VFunc, ft types.Type, g T, pos
 		env.bound[l.Name] = fx.evalExpr(env, l.E)
 	}
 	for i, r := range fc.Requires {
-		fx.oblige("pre", fmt.Sprintf("%s.%d", fn.Name(), i+1), g, fx.evalBool(env, r.E), pos, r.Src)
+		fx.oblige("pre", fmt.Sprintf("%s.%d", fn.Name(), i+1), g, fx.goalBool(env, r.E), pos, r.Src)
 	}
 	names := resultNamesOf(fn, fc)
 	if tup, ok := res.(VTuple); ok {
@@ -578,6 +578,6 @@ func (fx *FX) assumeClosureContract(st *State, fv VFunc, ft types.Type, g T, pos
 		env.bound["result"] = res
 	}
 	for _, e := range fc.Ensures {
-		fx.assume(g, fx.evalBool(env, e.E))
+		fx.assume(g, fx.hypBool(env, e.E))
 	}
 }
